@@ -3,7 +3,7 @@ import os, json, collections, random
 from . import core
 from .gen_inputs import cases_for
 import optable
-from optable import TYPES, ops_for
+from optable import TYPES, ops_for, PX, px_ops
 
 RULE = ('inputs: exhaustive where the operand space is <= 2^16 (all P8E0 unary/binary, all P16E1 unary), otherwise structured '
         '(sign x regime run length x exponent x fraction patterns, neighbours, near-cancellation, ties, saturation, thresholds) '
@@ -35,6 +35,8 @@ PROPS = {
     'C16': dict(lean_quick=['Props.C01Fin', 'Props.C03Fin', 'Props.C06Fin', 'Props.C07Fin', 'Props.C08Fin', 'Props.C09Fin', 'Props.C10Fin', 'Props.C11Fin', 'Props.C17Fin', 'Props.C05ShardQuick', 'Props.C04Hist', 'Props.C19'],
                 totality=True, all_theorems=True, prefixes=['']),
     'C15': dict(lean_quick=['Props.C15'], prefixes=['p32e2::math::sleef', 'polynom', 'quire32'], oracle15=True),
+    'C13': dict(lean_quick=[], prefixes=['pxe1', 'pxe2']),
+    'C14': dict(lean_quick=[], prefixes=['pxe1', 'pxe2', 'convert']),
     'C04': dict(lean_quick=['Props.C04', 'Props.C04Hist'], prefixes=['quire8', 'quire16', 'quire32']),
     'C12': dict(lean_quick=['Props.C12'], prefixes=['quire8', 'quire16', 'quire32']),
 }
@@ -76,7 +78,40 @@ def streams(pid, tier, rng, scale=1):
                 a_ = vals[0] if vals[0] < (1 << 31) else (1 << 32) - vals[0]
                 if a_ >= 0x7d400000 and vals[0] != (1 << 31): continue   # |x| >= 393216: explicit todo!() branch, outside C15/C16
             lines.append(ty + ' ' + op + ' ' + ' '.join('%x' % v for v in vals))
+    lines += px_streams(pid, tier, rng, scale)
     lines += extra_streams(pid, tier, rng, scale)
+    return lines
+
+def px_streams(pid, tier, rng, scale):
+    """generic-width posits: every width N in 2..=32, both exponent sizes; operands are N-bit structured patterns left-aligned in 32 bits"""
+    from .gen_inputs import interesting_posits, anyp, related_pair, triple, arg_of, structured_posit
+    if pid not in ('C13', 'C14', 'C16', 'C10'): return []
+    lines = []
+    per = {'C13': 400, 'C14': 150, 'C16': 40, 'C10': 60}[pid] * scale * (10 if tier == 'thorough' else 1)
+    for ty in PX:
+        for (op, args, ret, rust, lean, spec, prop) in px_ops(ty):
+            if pid != 'C16' and prop != pid: continue
+            args = list(args)
+            for N in range(2, 33):
+                sh = 32 - N
+                def X():
+                    if N <= 3: return rng.getrandbits(N) << sh
+                    return anyp(N, rng) << sh
+                cases = []
+                if all(k == 'X' for k in args):
+                    if N * len(args) <= 10:                      # small widths: every operand tuple
+                        import itertools
+                        cases = [tuple(v << sh for v in t) for t in itertools.product(range(1 << N), repeat=len(args))]
+                    elif len(args) == 1:
+                        cases = [(v << sh,) for v in interesting_posits(N, rng, per)]
+                    elif len(args) == 2:
+                        cases = [tuple(v << sh for v in related_pair(N, rng)) for _ in range(per)]
+                    else:
+                        cases = [tuple(v << sh for v in triple(N, rng)) for _ in range(per)]
+                else:
+                    cases = [tuple(X() if k == 'X' else arg_of(k, N, rng, TYPES) for k in args) for _ in range(per)]
+                for vals in cases:
+                    lines.append('%s %s %x %s' % (ty, op, N, ' '.join('%x' % v for v in vals)))
     return lines
 
 QT = {'q8': 8, 'q16': 16, 'q32': 32}
